@@ -224,20 +224,26 @@ where
     T: FromStr + crate::robotics::FromF64,
     T: num_traits::Float,
 {
-    if angle_conversions {
-        return crate::robotics::parse_yaml12_float_angle_converting(s, location, tag);
-    }
     let t = s.trim();
     let lower = t.to_ascii_lowercase();
-    match lower.as_str() {
-        ".nan" | "+.nan" | "-.nan" => Ok(T::nan()),
-        ".inf" | "+.inf" => Ok(T::infinity()),
-        "-.inf" => Ok(T::neg_infinity()),
-        _ => t.parse::<T>().map_err(|_| Error::InvalidScalar {
-            ty: "floating point",
-            location,
-        }),
+    let plain = match lower.as_str() {
+        ".nan" | "+.nan" | "-.nan" => Some(T::nan()),
+        ".inf" | "+.inf" => Some(T::infinity()),
+        "-.inf" => Some(T::neg_infinity()),
+        _ => t.parse::<T>().ok(),
+    };
+    if angle_conversions {
+        // An ordinary literal keeps exactly the value it has without the extension (for f32
+        // the evaluator's detour through f64 would round twice); only `!degrees` converts it.
+        if let (Some(v), false) = (plain, matches!(tag, SfTag::Degrees)) {
+            return Ok(v);
+        }
+        return crate::robotics::parse_yaml12_float_angle_converting(s, location, tag);
     }
+    plain.ok_or(Error::InvalidScalar {
+        ty: "floating point",
+        location,
+    })
 }
 
 #[cfg(not(feature = "robotics"))]
